@@ -7,7 +7,7 @@
 import copy, json, os
 import common, sched
 
-TIE = {"Agent": sched._ties_of("Agent"), "Sched": sched.SCHED_TIE,
+TIE = {"Agent": sched._ties_of("Agent"), "Load": sched.LOAD_TIES_FOR_SCHED, "Sched": sched.SCHED_TIE,
        "Graph": ["h_graph_setupRetry", "h_graph_NewExecutionGraphForRetry", "h_graph_addEdge", "h_graph_setup", "setupRetryFacts"]}
 
 
